@@ -108,7 +108,8 @@ fn run_one(exe_rtbp: &Path, c: &Cfg, r: &mut Report) {
     cmd.args(&args).current_dir(&app).env_clear().env("VERIF_LOG", &logf).env("VERIF_DUMP", &dumpf).env("VERIF_DO", c.behaviour).env("VERIF_PARTS", c.parts.join(","));
     if c.toml != "nodirvar" { cmd.env("CNB_BUILDPACK_DIR", &bp); }
     let vars = [("CNB_TARGET_OS", "linux"), ("CNB_TARGET_ARCH", "arm64"), ("CNB_TARGET_ARCH_VARIANT", "v8"), ("CNB_TARGET_DISTRO_NAME", "ubuntu"), ("CNB_TARGET_DISTRO_VERSION", "24.04")];
-    for (k, v) in vars { if c.missing_var != k { cmd.env(k, v); } }
+    // "<var>=" as missing_var: the variable is SET, to the empty string (set-but-empty must stay distinguishable from unset)
+    for (k, v) in vars { if let Some(ev) = c.missing_var.strip_suffix('=') { cmd.env(k, if k == ev { "" } else { v }); } else if c.missing_var != k { cmd.env(k, v); } }
     let before = snapshot(&root);
     let out = cmd.output().unwrap();
     let code = out.status.code().unwrap_or(-1);
@@ -121,7 +122,7 @@ fn run_one(exe_rtbp: &Path, c: &Cfg, r: &mut Report) {
 
     // ---- the decision table (executable form of exit_table)
     let gate_closed = c.toml != "ok" || c.exe == "other" || c.argc_delta != 0;
-    let mandatory_missing = !c.missing_var.is_empty() && c.missing_var != "CNB_TARGET_ARCH_VARIANT";
+    let mandatory_missing = !c.missing_var.is_empty() && !c.missing_var.ends_with('=') && c.missing_var != "CNB_TARGET_ARCH_VARIANT";
     let inputs_bad = mandatory_missing || (c.exe == "build" && (c.plan_file != "ok" || ["malformed", "binary", "directory", "loop"].contains(&c.store)));
     let callback = if c.exe == "build" { "build" } else { "detect" };
     let mut expected_after = before.clone();
@@ -169,7 +170,7 @@ fn run_one(exe_rtbp: &Path, c: &Cfg, r: &mut Report) {
         use std::fmt::Write as _;
         writeln!(want, "app_dir={}", hex(app.as_os_str().as_encoded_bytes())).unwrap();
         writeln!(want, "buildpack_dir={}", hex(bp.as_os_str().as_encoded_bytes())).unwrap();
-        let variant = if c.missing_var == "CNB_TARGET_ARCH_VARIANT" { "<none>".to_string() } else { "some:v8".to_string() };
+        let variant = if c.missing_var == "CNB_TARGET_ARCH_VARIANT" { "<none>".to_string() } else if c.missing_var == "CNB_TARGET_ARCH_VARIANT=" { "some:".to_string() } else { "some:v8".to_string() };
         writeln!(want, "target=linux|arm64|{variant}|ubuntu|24.04").unwrap();
         for (k, v) in &expected_env { writeln!(want, "platform_env={k}:{v}").unwrap(); }
         let d: libcnb::data::buildpack::ComponentBuildpackDescriptor<libcnb::generic::GenericMetadata> = toml::from_str(DESCRIPTOR_OK).unwrap();
@@ -201,7 +202,7 @@ pub fn runtime(thorough: bool) -> Report {
         let behaviours: &[&'static str] = if thorough { &["pass", "error", "fail"] } else { &["pass"] };
         for b in behaviours { let mut c = Cfg::base(exe); c.argc_delta = d; c.toml = toml; c.behaviour = if exe == "build" && *b == "fail" { "error" } else { b }; cfgs.push(c); }
     } } }
-    for exe in ["detect", "build"] { for v in ["CNB_TARGET_OS", "CNB_TARGET_ARCH", "CNB_TARGET_ARCH_VARIANT", "CNB_TARGET_DISTRO_NAME", "CNB_TARGET_DISTRO_VERSION"] {
+    for exe in ["detect", "build"] { for v in ["CNB_TARGET_OS", "CNB_TARGET_ARCH", "CNB_TARGET_ARCH_VARIANT", "CNB_TARGET_DISTRO_NAME", "CNB_TARGET_DISTRO_VERSION", "CNB_TARGET_ARCH_VARIANT="] {
         let mut c = Cfg::base(exe); c.missing_var = v; cfgs.push(c);
     } }
     for b in ["pass", "pass_plan", "fail", "error"] { for pre in [false, true] { for pf in [0u8, 1] {
